@@ -266,6 +266,54 @@ FULL_TREE = {
 }
 
 
+def equal_wrong_type(cur):
+    import collections
+    import decimal
+    import fractions
+    out = []
+
+    if type(cur) is int:
+        out += [float(cur), complex(cur), decimal.Decimal(cur),
+                fractions.Fraction(cur)]
+    elif type(cur) is bytes:
+        out += [bytearray(cur), memoryview(cur)]
+    elif type(cur) is dict:
+        out += [collections.UserDict(cur), collections.ChainMap(cur)]
+    elif type(cur) is str:
+        out += [collections.UserString(cur)]
+
+    return out
+
+
+def judge_equal_wrong_type(owner, name):
+    attr = 'content' if name.startswith('content:') else name
+    probe = trees.build(FULL_TREE)
+    cur = getattr(target_of(probe, owner), attr)
+    results = []
+
+    for value in equal_wrong_type(cur):
+        diffx = trees.build(FULL_TREE)
+        target = target_of(diffx, owner)
+        before = trees.snapshot(diffx)
+        what = '%s.%s = %r (current value %r)' % (owner, attr, value, cur)
+
+        try:
+            setattr(target, attr, value)
+        except Exception:
+            if not trees.snap_eq(before, trees.snapshot(diffx)):
+                results.append((('refused-assignment-changed-the-tree',
+                                 what), value))
+            else:
+                results.append((None, value))
+
+            continue
+
+        results.append((('invalid-value-stored',
+                         '%s was accepted' % what), value))
+
+    return results
+
+
 def judge_self_assignment(owner, name):
     diffx = trees.build(FULL_TREE)
     target = target_of(diffx, owner)
@@ -320,7 +368,11 @@ def judge_constructor(owner, name, value):
     return None
 
 
-UNKNOWN_KW = ['foo', 'lenght', 'Encoding', 'preamble_text', 'metadata',
+UNKNOWN_KW = ['meta_content', 'preamble_content', 'diff_content',
+              'diff_options', 'meta_options', 'preamble_options',
+              'meta__content', 'meta_section_id', 'preamble__level',
+              'diff__content', 'meta_section', 'subsections_',
+              'foo', 'lenght', 'Encoding', 'preamble_text', 'metadata',
               'indent_', 'diff_content', 'file', 'change', 'line_ending',
               'mimetypes', 'text', 'length']
 
@@ -388,6 +440,19 @@ def run_enum_chunk(owner, st):
                 st.violation(res[0], res[1],
                              {'owner': owner, 'name': name, 'value': value})
 
+    # a value that compares equal to the current one but has the wrong
+    # type is still the wrong type
+    for name in OWNERS[owner]:
+        for res, value in judge_equal_wrong_type(owner, name):
+            evals += 1
+            nontrivial += 1
+
+            if res is not None:
+                st.violation(res[0], res[1],
+                             {'owner': owner, 'name': name,
+                              'via': 'equal-wrong-type',
+                              'value': repr(value)})
+
     # assigning an attribute its own current value changes nothing
     for name in OWNERS[owner]:
         res = judge_self_assignment(owner, name)
@@ -425,7 +490,13 @@ def run_enum_chunk(owner, st):
 
 
 def run_enum_case(case, st):
-    if case.get('via') == 'self':
+    if case.get('via') == 'equal-wrong-type':
+        res = None
+
+        for r, value in judge_equal_wrong_type(case['owner'], case['name']):
+            if r is not None and repr(value) == case.get('value'):
+                res = r
+    elif case.get('via') == 'self':
         res = judge_self_assignment(case['owner'], case['name'])
     elif case.get('via') == 'constructor':
         res = judge_constructor(case['owner'], case['name'], case['value'])
